@@ -1677,3 +1677,43 @@ def m_split_at_base(ex, a, callee, canon):
         raise PathPanic("slice::split_at: mid > len")
     mk = lambda xs: Ptr([Bytes(seq_of(xs))], 0)
     return Struct("tuple", [mk(items[:k]), mk(items[k:])])
+
+
+@model(r"^(std::ops::|core::ops::)?RangeInclusive::new$|^RangeInclusive::<.*>::new$")
+def m_range_inclusive_new(ex, a, callee, canon):
+    return Struct("RangeInclusive", [a[0], a[1]])
+
+
+@model(r"^(std::ops::|core::ops::)?(RangeInclusive|Range)(::<.*>)?::contains$")
+def m_range_contains(ex, a, callee, canon):
+    r, x = deref(a[0]), deref(a[1])
+    lo, hi = r.f[0], r.f[1]
+    sg = is_signed(x.ty)
+    ge = (x.t >= lo.t) if sg else z3.UGE(x.t, lo.t)
+    if r.name == "RangeInclusive":
+        le = (x.t <= hi.t) if sg else z3.ULE(x.t, hi.t)
+    else:
+        le = (x.t < hi.t) if sg else z3.ULT(x.t, hi.t)
+    return Bool(z3.And(ge, le))
+
+
+@model(r"^<&?(u8|u16|u32|u64|usize|i8|i16|i32|i64|isize) as (Add|Sub|Mul|BitAnd|BitOr|BitXor)<&?(u8|u16|u32|u64|usize|i8|i16|i32|i64|isize)>>::(add|sub|mul|bitand|bitor|bitxor)$")
+def m_ref_arith(ex, a, callee, canon):
+    """operator impls on references (`&u8 - u8`): same semantics as the MIR binary operator with overflow checks"""
+    x, y = deref(a[0]), deref(a[1])
+    op = canon.rsplit("::", 1)[1]
+    if op in ("bitand", "bitor", "bitxor"):
+        return Int({"bitand": x.t & y.t, "bitor": x.t | y.t, "bitxor": x.t ^ y.t}[op], x.ty)
+    sg = is_signed(x.ty)
+    if op == "add":
+        okc = z3.And(z3.BVAddNoOverflow(x.t, y.t, sg), z3.BVAddNoUnderflow(x.t, y.t) if sg else z3.BoolVal(True))
+        r = x.t + y.t
+    elif op == "sub":
+        okc = z3.And(z3.BVSubNoUnderflow(x.t, y.t, sg), z3.BVSubNoOverflow(x.t, y.t) if sg else z3.BoolVal(True))
+        r = x.t - y.t
+    else:
+        okc = z3.And(z3.BVMulNoOverflow(x.t, y.t, sg), z3.BVMulNoUnderflow(x.t, y.t) if sg else z3.BoolVal(True))
+        r = x.t * y.t
+    if not ex.decide(okc):
+        raise PathPanic(f"attempt to {op} with overflow")
+    return Int(r, x.ty)
